@@ -200,3 +200,133 @@ Theorem C13_source_tie :
   gen_suffix_format = "_%v"%string /\ gen_inject_shape = true /\ gen_validate_quadtree_first = true.
 Proof. repeat split; reflexivity. Qed.
 Print Assumptions C13_source_tie.
+
+(** ** tie G2 (command line tool): FUNCTIONS regenerated from /repo/main.go on this run (gen/CliMainGen.v, translator/climain.go).
+
+    REGENERATED, statement by statement from the AST: [injectSuffixIntoPath], [initGPKGTarget], [validateTileMatrixSet],
+    [processBySnapping], the [app.Action] function literal and the end of [main] (app.Run, log.Fatal): control flow, the order
+    of the calls, every error exit ([return err] -> log.Fatal in main; log.Fatalf), which flag is read for which argument, the
+    map of targets (one target per DISTINCT id), overwrite handling (os.Remove, ENOENT tolerated), the per-table loop, the defers.
+    STAYS MODELLED (Cli/MainOps.v; each call is accepted only in the exact shape listed at the top of gen/CliMainGen.v):
+    package path (Split / Ext / Join with Clean), fmt.Sprintf with one %v, urfave/cli (the context = the value of every flag by
+    name; app.Run calls the Action), the file system as finite maps, gpkg.SourceGeopackage / gpkg.TargetGeopackage (objects on
+    a heap, their content in the file system, CreateTables / the writer = Gpkg/Model.v), Go maps (keys in the order of their
+    last assignment), and — as fields of an abstract [lib], so for EVERY implementation of them — tms20.LoadEmbeddedTileMatrixSet,
+    json.Unmarshal, pointindex.IsQuadTree / DeviationStats, snap.SnapPolygon and processing.ProcessFeatures. *)
+From Texel Require Import Cli.MainOps Cli.ProofsGenMain.
+From Texel.Gen Require Import CliMainGen.
+Open Scope list_scope.
+
+(** injectSuffixIntoPath of main.go IS the model's [inject_format], for all strings *)
+Theorem C13_source_tie_inject_suffix : forall p, gen_injectSuffixIntoPath p = MOk (inject_format p).
+Proof. exact gen_injectSuffixIntoPath_spec. Qed.
+Print Assumptions C13_source_tie_inject_suffix.
+
+(** so C13_target_path_spec speaks about the source text: injectSuffixIntoPath, then fmt.Sprintf as in initGPKGTarget *)
+Theorem C13_target_path_spec_source : forall rooted comps n e id,
+  Forall comp_ok comps -> name_ok n e -> ext_ok e ->
+  (mdo f <- gen_injectSuffixIntoPath (render_dir rooted comps ++ n ++ e); op_Sprintf f id) =
+  MOk (render_dir rooted comps ++ n ++ s_ "_" ++ dec id ++ e).
+Proof. exact target_path_spec_gen. Qed.
+Print Assumptions C13_target_path_spec_source.
+
+(** validateTileMatrixSet of main.go returns nil exactly when: IsQuadTree passes, at least one id is given, every id names a
+    tile matrix of the set, and DeviationStats of the MAXIMAL id passes; every error it returns is one of these *)
+Theorem C13_source_tie_validate : forall (L : lib) (t : l_tms L) (ids : list Z),
+  exists e, gen_validateTileMatrixSet L t ids = MOk e /\
+    is_nil e = (is_nil (l_IsQuadTree L t) && negb (Nat.eqb (List.length ids) 0) && forallb (l_HasMatrix L t) ids &&
+                is_nil (snd (l_DeviationStats L t (max_id ids)))) /\
+    (is_nil e = false -> tms_error e).
+Proof. exact gen_validateTileMatrixSet_spec. Qed.
+Print Assumptions C13_source_tie_validate.
+
+(** the whole tool: main of main.go, run on a context [c] (the flags), a file system [fs0] and source GeoPackages [srcs]
+    (table names distinct per source, as SQLite guarantees), ends as the model's [cli_run] on [args_of] — the same files
+    (as finite maps) on success, the same verdict on every abnormal end — for every library [L].  [args_of] says which flag
+    feeds which argument: -tilematrixset / -tilematrices load, parse and validate; -sourceGpkg; -targetGpkg; the ids as
+    listed; overwrite / pagesize / keeppointsandlines / ignoreoutsidegrid / reversewindingorder *)
+Theorem C13_source_tie_main : forall (L : lib) (c : cctx) (fs0 : fsys) (srcs : srcfs L),
+  (forall src, src_lookup L (cx_String c "sourceGpkg") srcs = Some src -> NoDup (map t_name (map fst src))) ->
+  match gen_main L (MkWorld fs0 srcs []) c,
+        cli_run (l_sfeat L) (l_poly L -> list Z -> l_sres L)
+                (fun cfg p ids => l_SnapPolygon L p (fst (l_LoadTms L (cx_String c "tilematrixset"))) ids cfg)
+                (l_pipeline L)
+                (MkArgs (is_nil (snd (l_LoadTms L (cx_String c "tilematrixset"))) &&
+                         is_nil (snd (l_Unmarshal L (cx_String c "tilematrices"))) &&
+                         validate_ok L (fst (l_LoadTms L (cx_String c "tilematrixset"))) (fst (l_Unmarshal L (cx_String c "tilematrices"))))
+                        (src_lookup L (cx_String c "sourceGpkg") srcs)
+                        (cx_String c "targetGpkg")
+                        (fst (l_Unmarshal L (cx_String c "tilematrices")))
+                        (MkFlags (cx_Bool c "overwrite") (cx_Int c "pagesize") (cx_Bool c "keeppointsandlines")
+                                 (cx_Bool c "ignoreoutsidegrid") (cx_Bool c "reversewindingorder")))
+                fs0 with
+  | MOk w, COk fs => forall q, fs_lookup q (mw_fs w) = fs_lookup q fs
+  | MErr e, CErr e' => verdict e = Some e'
+  | _, _ => False
+  end.
+Proof. exact source_tie_main. Qed.
+Print Assumptions C13_source_tie_main.
+
+(** every flag the Action reads is declared in app.Flags with the kind of its accessor; the flags read are exactly those of
+    the statement above; -pagesize defaults to 1000 *)
+Theorem C13_source_tie_flags :
+  forallb flag_declared gen_flag_uses = true /\
+  forallb (fun n => existsb (fun u => String.eqb (snd u) n) gen_flag_uses)
+          ["tilematrixset"; "tilematrices"; "sourceGpkg"; "targetGpkg"; "overwrite"; "pagesize";
+           "keeppointsandlines"; "ignoreoutsidegrid"; "reversewindingorder"]%string = true /\
+  forallb (fun u : string * string =>
+             existsb (String.eqb (snd u))
+                     ["tilematrixset"; "tilematrices"; "sourceGpkg"; "targetGpkg"; "overwrite"; "pagesize";
+                      "keeppointsandlines"; "ignoreoutsidegrid"; "reversewindingorder"]%string) gen_flag_uses = true /\
+  existsb (fun d : string * string * bool * string =>
+             String.eqb (fst (fst (fst d))) "pagesize" && String.eqb (snd d) "1000") gen_flag_decls = true.
+Proof. exact (conj flags_used_are_declared flags_used_by_args_of). Qed.
+Print Assumptions C13_source_tie_flags.
+
+(** the regenerated program RUNS: the library of Cli/Ref.v (recorded snapping results), the two-table source of the examples
+    above, `-z [6,5,6] -pagesize 2 -keeppointsandlines` on an empty directory *)
+Definition ex_lib (recorded : snapcfg) : lib :=
+  MkLib rfeat unit unit bool unit unit
+    (fun name => (tt, if str_eqb name (s_ "NetherlandsRDNewQuad") then None else Some "unknown tile matrix set"%string))
+    (fun s => if str_eqb s (s_ "[6,5,6]") then ([6; 5; 6], None)
+              else if str_eqb s (s_ "[5,6]") then ([5; 6], None) else ([], Some "invalid character"%string))
+    (fun _ => None) (fun _ id => (0 <=? id) && (id <=? 14)) (fun _ _ => (tt, tt, tt, None))
+    (fun _ _ _ cfg => ref_snap recorded cfg)
+    (fun f ids feats => ref_pipeline (f tt []) ids feats).
+
+Definition ex_ctx (src tgt ids : string) (overwrite : bool) : cctx :=
+  MkCtx (fun n => if String.eqb n "sourceGpkg" then s_ src else if String.eqb n "targetGpkg" then s_ tgt
+                  else if String.eqb n "tilematrixset" then s_ "NetherlandsRDNewQuad"
+                  else if String.eqb n "tilematrices" then s_ ids else [])
+        (fun n => if String.eqb n "overwrite" then overwrite else String.eqb n "keeppointsandlines")
+        (fun _ => 2).
+
+Definition ex_world (fs : fsys) : world (ex_lib ex_cfg) := @MkWorld (ex_lib ex_cfg) fs [(s_ "in.gpkg", ex_src)] [].
+
+Definition gen_rows_at (r : mres (world (ex_lib ex_cfg))) (path table : string) : option (list row) :=
+  match r with MOk w => rows_at (COk (mw_fs w)) path table | MErr _ => None end.
+
+Example C13_example_source_tie_main :
+  let r := gen_main (ex_lib ex_cfg) (ex_world []) (ex_ctx "in.gpkg" "out/nl.gpkg" "[6,5,6]" false) in
+  gen_rows_at r "out/nl_5.gpkg" "parcels" = Some [[CVal (VInt 1); CGeom (g 15); CVal (VText 1)]] /\
+  gen_rows_at r "out/nl_6.gpkg" "parcels" = Some [[CVal (VInt 1); CGeom (g 16); CVal (VText 1)];
+                                                  [CVal (VInt 2); CGeom (MkGeom 6 [(0, 0)] 26); CVal (VText 2)]] /\
+  gen_rows_at r "out/nl_6.gpkg" "poi" = Some [[CVal (VInt 7); CGeom (MkGeom 1 [(1, 1)] 9)]] /\
+  gen_rows_at r "out/nl.gpkg" "poi" = None /\
+  match r with MOk w => List.length (mw_fs w) = 2%nat /\ List.length (mw_heap w) = 3%nat | MErr _ => False end /\
+  (* a second run over these files: fails without -overwrite (tables exist), succeeds with it *)
+  match r with
+  | MOk w => gen_main (ex_lib ex_cfg) (ex_world (mw_fs w)) (ex_ctx "in.gpkg" "out/nl.gpkg" "[5,6]" false) = MErr (Fatal (OpErr (Gpkg TableExists))) /\
+             gen_rows_at (gen_main (ex_lib ex_cfg) (ex_world (mw_fs w)) (ex_ctx "in.gpkg" "out/nl.gpkg" "[5,6]" true)) "out/nl_6.gpkg" "parcels"
+             = gen_rows_at r "out/nl_6.gpkg" "parcels"
+  | MErr _ => False
+  end /\
+  (* abnormal ends *)
+  gen_main (ex_lib ex_cfg) (ex_world []) (ex_ctx "missing.gpkg" "out/nl.gpkg" "[5,6]" false) = MErr (Fatal ENOENT) /\
+  gen_main (ex_lib ex_cfg) (ex_world []) (ex_ctx "in.gpkg" "out/100%.gpkg" "[5,6]" false) = MErr UnsafeFormat /\
+  gen_main (ex_lib ex_cfg) (ex_world []) (ex_ctx "in.gpkg" "out/nl.gpkg" "[5,6" false) = MErr (Fatal (LibErr "invalid character")) /\
+  gen_main (ex_lib ex_cfg) (ex_world []) (ex_ctx "in.gpkg" "out/nl.gpkg" "[]" false) = MErr (Fatal (LibErr "invalid character")) /\
+  gen_main (ex_lib (MkSnapCfg false true false)) (@MkWorld (ex_lib (MkSnapCfg false true false)) [] [(s_ "in.gpkg", ex_src)] [])
+           (ex_ctx "in.gpkg" "out/nl.gpkg" "[5,6]" false) = MErr PipelinePanicked /\
+  gen_injectSuffixIntoPath (s_ "a//b/../x.tar.gz") = MOk (s_ "a/x.tar_%v.gz").
+Proof. vm_compute. repeat split. Qed.
